@@ -276,6 +276,84 @@ def h_run_mapping_reduced(ctx, case):
     return 'ok' if e1 is None else 'error'
 
 
+def h_run_mapping_two_level(ctx, case):
+    """the same equivalence when the stored taxonomy has only two levels
+    (the third one was never there): dropping its one non-leaf level ==
+    mapping against the one-level reference with the root's markers;
+    dropping an unknown level changes nothing"""
+    from harness import stage as ST
+    from harness import stagechecks as SC
+    inp = SC.inputs(case)
+    pre = ['class', 'subclass'][ctx.choice('level_never_there', 2)]
+    other = 'subclass' if pre == 'class' else 'class'
+    two = ST.tree_data(True, drop=pre)
+    table = {}
+    for k, v in inp.marker_table.items():
+        if k.startswith(pre + '/'):
+            continue
+        if k == 'None':
+            table[k] = list(v)
+            continue
+        c = ctx.choice(f"table[{k}]", 3)
+        if c == 0:
+            table[k] = list(v)
+        elif c == 1:
+            table[k] = ['g6']           # in the reference, not in the query
+    kind = ctx.choice('drop', 2)        # the non-leaf level / not a level
+    common = dict(bootstrap_iteration=5, min_markers=2,
+                  bootstrap_factor=0.5)
+    w1, w2 = ST.new_work('a'), ST.new_work('b')
+    cfg1 = ST.make_config(inp, w1, **common)
+    cfg1['precomputed_stats'] = {'path': inp.stats_for(two, f'two_{other}')}
+    cfg1['query_markers'] = {'serialized_lookup':
+                             inp.markers_file(table, 'two')}
+    cfg2 = ST.make_config(inp, w2, **common)
+    if kind == 0:
+        cfg1['drop_level'] = other
+        flat = ST.tree_data(True, flat=True)
+        cfg2['precomputed_stats'] = {'path': inp.stats_for(flat, 'flat')}
+        cfg2['query_markers'] = {'serialized_lookup': inp.markers_file(
+            {'None': table['None']}, 'root_only')}
+        keep = ['cluster']
+    else:
+        cfg1['drop_level'] = pre        # a level this reference never had
+        cfg2['precomputed_stats'] = dict(cfg1['precomputed_stats'])
+        cfg2['query_markers'] = dict(cfg1['query_markers'])
+        keep = [other, 'cluster']
+    r1, r2 = ST.run(cfg1), ST.run(cfg2)
+    e1, e2 = r1['raised'], r2['raised']
+    ctx.check((e1 is None) == (e2 is None),
+              f'both runs succeed or both fail: {str(e1)[:60]} / '
+              f'{str(e2)[:60]}')
+    if e1 is None and e2 is None:
+        ctx.reach('both mapped')
+        import json
+        tree_dict = json.loads(two.to_str())
+        parent_of = {ch: par for par, chn in tree_dict[other].items()
+                     for ch in chn}
+        for x, y in zip(r1['json']['results'], r2['json']['results']):
+            ctx.check(x['cell_id'] == y['cell_id'], 'same cells')
+            for lv in keep:
+                ctx.check(x[lv] == y[lv], f'level {lv}: result with the '
+                          'reduction == result on the reduced taxonomy '
+                          '(two-level reference)')
+            if other not in keep:
+                ctx.check(x[other]['assignment'] ==
+                          parent_of[x['cluster']['assignment']] and
+                          x[other]['directly_assigned'] is False,
+                          'removed level == ancestor of the finer '
+                          'assignment, flagged as inferred (two-level '
+                          'reference)')
+        if kind == 0:
+            ctx.check(r1['json']['marker_genes'] ==
+                      r2['json']['marker_genes'],
+                      'same markers used with the reduction and on the '
+                      'reduced taxonomy (two-level reference)')
+    ST.drop_work(w1)
+    ST.drop_work(w2)
+    return 'ok' if e1 is None else 'error'
+
+
 def _rm_setup(case, mode):
     from harness import refmarkers as RM
     RM.setup(case, mode)
@@ -344,6 +422,18 @@ HARNESSES = [
                    'min_markers 1-2; bootstrap factor 0.5 or 1 with a '
                    'common seed',
             expect_reach=['both mapped'], split=32),
+    Harness('run_mapping_two_level_reference', h_run_mapping_two_level,
+            setup=_sc_setup, cases=[{}],
+            funcs=['from_specified_markers.run_mapping', '_run_mapping',
+                   'TaxonomyTree.drop_level/backfill_assignments',
+                   'marker_cache_v2.create_marker_cache_from_specified_'
+                   'markers', 'election_runner.run_type_assignment_on_h5ad'],
+            stubs=['multiprocessing -> model (workers inline)'],
+            bounds='the fixed taxonomy stored with two levels (class or '
+                   'subclass never there); drop of its one non-leaf level '
+                   '/ of the level it never had; every thinning of the '
+                   'marker table',
+            expect_reach=['both mapped'], split=16),
     Harness('markers_of_removed_parents', h_markers_of_removed_parents,
             setup=setup_markers,
             cases=[{'sizes': [2, 3], 'genes': 2},
